@@ -44,7 +44,7 @@ LEVEL_NOTE = ("Trusted: Lean kernel; rustc; that the models mirror the Rust cont
               "property's arbitrary-byte streams, release and dbg profiles). Actual over-reads are only observable through the guard "
               "page (one byte past the end faults; reads before the start are not caught). The integer parser with the `format` feature "
               "(prefix/suffix/separators) is modelled by Model.ParseIntFormat (Props/C04Format.lean: total for the formats without "
-              "separator/prefix/suffix/leading-zero flag, decided debug panic witness '1h_'; other formats: full statement kept as a def, "
+              "integer-separator/prefix/suffix/leading-zero flag - any separator byte and any fraction/exponent separator flags since /repo 12a2453 -, decided debug panic witness '1h_'; other formats: full statement kept as a def, "
               "correspondence 0 mismatches on all pi ops).")
 
 
